@@ -214,7 +214,7 @@ def run_gauge(args, known, gauge):
             r = str(s.check())
         if r != "unsat":
             s = z3.Solver()
-            s.set("timeout", 30000)
+            s.set("timeout", 120000)  # measured 4 s on an idle machine; generous because vp check runs under load
             s.add(*asserts)
             r = str(s.check())
         ob = {"label": label, "status": r, "seconds": round(time.time() - t0, 3), "how": "NRA"}
